@@ -125,6 +125,37 @@ def check(case, rec):
             verify(rec, model, out.getvalue(), 'rewrite:', False)
 
 
+def channel_msgs(rec, tag, p, t, writes, got, raw_reader):
+    """differences between what was read for channel p and the concatenation of `writes` ([] when equal)"""
+    if t == 'str':
+        exp = [s for w in writes for s in w[1]]
+        return compare_values('str', exp, got, 'channel %s' % p)
+    if t == 'ts':
+        exp = [v for w in writes for v in w[1]]
+        want = np.array([dt64_from_us(v) for v in exp], dtype='datetime64[us]')
+        if np.asarray(got).dtype != np.dtype('<M8[us]'):
+            return ['channel %s: dtype %s, expected datetime64[us]' % (p, np.asarray(got).dtype)]
+        if len(got) != len(want) or not bool(np.all(np.asarray(got) == want)):
+            bad = [i for i in range(min(len(got), len(want))) if got[i] != want[i]][:3]
+            return ['channel %s: %d timestamps read, %d written; differ at %r: got %r expected %r' % (
+                p, len(got), len(want), bad, [str(got[i]) for i in bad], [str(want[i]) for i in bad])]
+        if raw_reader is not None:
+            # the same data read as raw timestamps: whole seconds since 1904 (negative before the epoch) must match
+            ok2, raw = rec.guard(tag + 'read_channel', raw_reader)
+            if ok2 and len(raw) == len(exp):
+                secs = [int(x) for x in np.asarray(raw['seconds'])] if len(raw) else []
+                want_secs = [v // 10 ** 6 for v in exp]
+                if secs != want_secs:
+                    return ['channel %s: raw timestamp seconds %r, expected %r' % (p, secs[:4], want_secs[:4])]
+        return []
+    if t == 'intlist':
+        exp = [v for w in writes for v in w[1]]
+        g_list = [int(x) for x in got]
+        return [] if g_list == exp else ['channel %s (int list): got %r expected %r' % (p, g_list[:6], exp[:6])]
+    exp = b''.join(w[1] for w in writes)
+    return compare_values(t, exp, got, 'channel %s' % p)
+
+
 def verify(rec, model, data, tag, check_codes):
     from nptdms import TdmsFile
     ok, tf = rec.guard(tag + 'read', lambda: TdmsFile.read(io.BytesIO(data)))
@@ -133,6 +164,12 @@ def verify(rec, model, data, tag, check_codes):
     ok, tfr = rec.guard(tag + 'read', lambda: TdmsFile.read(io.BytesIO(data), raw_timestamps=True))
     if not ok:
         return None
+    lazy = lazy_raw = None
+    if check_codes:
+        ok, lazy = rec.guard(tag + 'open', lambda: TdmsFile.open(io.BytesIO(data)))
+        ok2, lazy_raw = rec.guard(tag + 'open', lambda: TdmsFile.open(io.BytesIO(data), raw_timestamps=True))
+        if not (ok and ok2):
+            return None
     segs = None
     if check_codes:
         try:
@@ -164,36 +201,31 @@ def verify(rec, model, data, tag, check_codes):
         ok, got = rec.guard(tag + 'read_channel', lambda: ch[:])
         if not ok:
             continue
-        if t == 'str':
-            exp = [s for w in writes for s in w[1]]
-            msgs = compare_values('str', exp, got, 'channel %s' % p)
-        elif t == 'ts':
-            exp = [v for w in writes for v in w[1]]
-            want = np.array([dt64_from_us(v) for v in exp], dtype='datetime64[us]')
-            msgs = []
-            if np.asarray(got).dtype != np.dtype('<M8[us]'):
-                msgs = ['channel %s: dtype %s, expected datetime64[us]' % (p, np.asarray(got).dtype)]
-            elif len(got) != len(want) or not bool(np.all(np.asarray(got) == want)):
-                bad = [i for i in range(min(len(got), len(want))) if got[i] != want[i]][:3]
-                msgs = ['channel %s: timestamps differ at %r: got %r expected %r' % (
-                    p, bad, [str(got[i]) for i in bad], [str(want[i]) for i in bad])]
-            else:
-                # the same data read as raw timestamps: whole seconds since 1904 (negative before the epoch) must match
-                ok2, raw = rec.guard(tag + 'read_channel', lambda: tfr[g][c][:])
-                if ok2 and len(raw) == len(exp):
-                    secs = [int(x) for x in np.asarray(raw['seconds'])] if len(raw) else []
-                    want_secs = [v // 10 ** 6 for v in exp]
-                    if secs != want_secs:
-                        msgs = ['channel %s: raw timestamp seconds %r, expected %r' % (p, secs[:4], want_secs[:4])]
-        elif t == 'intlist':
-            exp = [v for w in writes for v in w[1]]
-            g_list = [int(x) for x in got]
-            msgs = [] if g_list == exp else ['channel %s (int list): got %r expected %r' % (p, g_list[:6], exp[:6])]
-        else:
-            exp = b''.join(w[1] for w in writes)
-            msgs = compare_values(t, exp, got, 'channel %s' % p)
+        msgs = channel_msgs(rec, tag, p, t, writes, got, lambda: tfr[g][c][:])
         for m in msgs:
             rec.violation(tag + 'channel_data:' + ('list' if t == 'intlist' else t), m)
+        if msgs or lazy is None:
+            continue
+        # the same through a lazily opened file: whole channel, and the window holding each single write
+        ok, got_l = rec.guard(tag + 'lazy_read_channel', lambda: lazy[g][c][:])
+        if not ok:
+            continue
+        for m in channel_msgs(rec, tag, p, t, writes, got_l, lambda: lazy_raw[g][c][:]):
+            rec.violation(tag + 'lazy_channel_data:' + ('list' if t == 'intlist' else t), 'TdmsFile.open: ' + m)
+            break
+        else:
+            off = 0
+            for k, w in enumerate(writes):
+                nw = len(w[1]) if t in ('str', 'ts', 'intlist') else len(w[1]) // W.T_SIZE[t]
+                if nw and len(writes) > 1:
+                    ok, win = rec.guard(tag + 'lazy_read_window', lambda: lazy[g][c].read_data(off, nw))
+                    if ok:
+                        wm = channel_msgs(rec, tag, p, t, [w], win, None)
+                        if wm:
+                            rec.violation(tag + 'lazy_window:' + ('list' if t == 'intlist' else t),
+                                          'TdmsFile.open read_data(%d,%d) (the values of write %d): %s' % (off, nw, k, wm[0]))
+                            break
+                off += nw
     # ---- properties
     for p, pd in model.props.items():
         comps = split_path(p)
@@ -227,6 +259,24 @@ def verify(rec, model, data, tag, check_codes):
     for (g, c) in model.order:
         if g not in tf:
             rec.violation(tag + 'names', 'group %r missing' % g)
+    for f in (lazy, lazy_raw):
+        if f is not None:
+            f.close()
+    if check_codes and len(model.order) > 1:
+        # once more on a fresh lazily opened file with the channels read in the opposite order
+        ok, rev = rec.guard(tag + 'open', lambda: TdmsFile.open(io.BytesIO(data)))
+        if ok:
+            with rev:
+                for (g, c) in reversed(model.order):
+                    p = make_path(g, c)
+                    writes = model.writes[p]
+                    t = writes[0][0]
+                    ok, got_l = rec.guard(tag + 'lazy_read_channel', lambda: rev[g][c][:])
+                    if ok:
+                        for m in channel_msgs(rec, tag, p, t, writes, got_l, None):
+                            rec.violation(tag + 'lazy_channel_data:' + ('list' if t == 'intlist' else t),
+                                          'TdmsFile.open, channels read last to first: ' + m)
+                            break
     return tf
 
 
@@ -240,6 +290,12 @@ def post_check(stats, labels):
 
 def jobs(tier):
     if tier == 'quick':
-        return [Job('programs', 'hyp', lambda: W.program(), n=4000)]
+        return [Job('programs', 'hyp', lambda: W.program(), n=4000),
+                Job('long_arrays', 'hyp', lambda: W.big_program(), n=160,
+                    note='array lengths on and next to powers of two between 512 and 196608 values'),
+                Job('many_segments', 'hyp', lambda: W.many_segment_program(), n=320,
+                    note='100-140 write_segment calls; two channels whose per-call lengths first differ after call 97')]
     return [Job('programs', 'hyp', lambda: W.program(), n=120000),
-            Job('long_programs', 'hyp', lambda: W.program(max_sessions=3, max_calls=5, max_objs=6, max_len=40), n=20000)]
+            Job('long_programs', 'hyp', lambda: W.program(max_sessions=3, max_calls=5, max_objs=6, max_len=40), n=20000),
+            Job('long_arrays', 'hyp', lambda: W.big_program(), n=4000),
+            Job('many_segments', 'hyp', lambda: W.many_segment_program(), n=2500)]
